@@ -674,6 +674,8 @@ def interval_from_guards(fn, site, expr, lo=-INF, hi=INF, match=None):
 def array_capacity(n):
     """number of elements of the array a pointer expression decays from (local/member array), else None"""
     s = n.strip(casts=True)
+    while s.k == 'InitListExpr' and len(s.children) == 1:       # brace initialisation: char *p{buf}
+        s = s.children[0].strip(casts=True)
     if s.k == 'UnaryOperator' and s.op == '&':
         s = s.children[0].strip(casts=True)
         if s.k == 'ArraySubscriptExpr' and s.children[1].strip(casts=True).value == 0:
